@@ -6,6 +6,9 @@
 //!           `EnzymeParameters::digest`; position 0 Nterm 1 Cterm 2 Full 3 Internal
 //!   fasta <decoy-tag-hex> <generate_decoys> <text-hex>
 //!        -> panic | n (accession-hex sequence-hex)…                    (file order)
+//!   fastadigest <decoy-tag-hex> <generate_decoys> <text-hex> <the 7 opt builder fields> <k> <pool size>…
+//!        -> panic | k, then per pool size: n (accession-hex seq-hex mc position semi decoy)… sorted by text
+//!           (`Fasta::parse(..).digest(&params)` run inside `ThreadPoolBuilder::num_threads(p).build().install`)
 use super::Info;
 use crate::proto::{Case, Out, Rng, Tier, Toks};
 use sage_core::database::EnzymeBuilder;
@@ -13,7 +16,7 @@ use sage_core::enzyme::{EnzymeParameters, Position};
 use sage_core::fasta::Fasta;
 use std::sync::Arc;
 
-pub const OPS: &[&str] = &["digest", "fasta"];
+pub const OPS: &[&str] = &["digest", "fasta", "fastadigest"];
 pub const INFO: Info = Info {
     rule: "digest: (a) exhaustive: every sequence up to length L (quick 4, thorough 5) crossed with all \
            settings below; thorough also every sequence of length 6 with 12 and of length 7-8 with 2 random \
@@ -36,7 +39,14 @@ pub const INFO: Info = Info {
            final newline, lone trailing CR, records without sequence, bare '>' headers without sequence, \
            VT characters, duplicate accessions. Inputs on which Fasta::parse panics (a bare '>' header that \
            is followed by sequence, or sequence text before the first header) are outside the statement \
-           and are NOT generated. Non-trivial = at least 2 records with sequence.",
+           and are NOT generated. Non-trivial = at least 2 records with sequence. \
+           fastadigest: FASTA files of 1..24 records (every count, so every remainder modulo any batch \
+           size occurs) with short K/R-rich sequences, some accessions decoy-tagged, generate flag on/off, a \
+           random enzyme setting (KR/P, K, D N-terminal, non-specific with narrow bounds, semi sometimes), \
+           digested by Fasta::digest under rayon pools of 1,2,3,4,8 threads; the multiset of (accession, \
+           peptide, missed cleavages, position, semi, decoy) per pool is compared with the model and, by the \
+           spec, across pools (thread_dependent), per record (record_not_digested) and for the decoy flag. \
+           Non-trivial = at least 2 records.",
     serial: false,
 };
 
@@ -503,9 +513,92 @@ fn gen_fasta(rng: &mut Rng, tier: Tier, emit: &mut dyn FnMut(Case)) {
     }
 }
 
+fn builder_tokens(o: &mut Out, b: &B) {
+    match b.mc {
+        None => o.n(0),
+        Some(x) => o.n(1).n(x),
+    };
+    match b.min_len {
+        None => o.n(0),
+        Some(x) => o.n(1).n(x),
+    };
+    match b.max_len {
+        None => o.n(0),
+        Some(x) => o.n(1).n(x),
+    };
+    match &b.cleave {
+        None => o.n(0),
+        Some(x) => o.n(1).bytes(x),
+    };
+    match b.restrict {
+        None => o.n(0),
+        Some(x) => o.n(1).n(x),
+    };
+    match b.c_terminal {
+        None => o.n(0),
+        Some(x) => o.n(1).b(x),
+    };
+    match b.semi {
+        None => o.n(0),
+        Some(x) => o.n(1).b(x),
+    };
+}
+
+const POOLS: &[usize] = &[1, 2, 3, 4, 8];
+
+fn gen_fastadigest(rng: &mut Rng, tier: Tier, emit: &mut dyn FnMut(Case)) {
+    let reps = if tier == Tier::Quick { 6 } else { 60 };
+    for _ in 0..reps {
+        for nrec in 1..=24usize {
+            let tag: &[u8] = *rng.pick(&[&b"rev_"[..], b"rev_", b"DECOY_", b""]);
+            let generate = rng.chance(1, 2);
+            let mut recs = Vec::new();
+            for i in 0..nrec {
+                let base = format!("P{}", if rng.chance(1, 10) { 0 } else { i }).into_bytes();
+                let acc = if rng.chance(1, 4) { [tag, &base[..]].concat() } else { base };
+                let l = 6 + rng.below(20);
+                let seq: Vec<u8> = (0..l)
+                    .map(|_| if rng.chance(30, 100) { *rng.pick(b"KRPD") } else { *rng.pick(b"ACDEGLSTV") })
+                    .collect();
+                let desc = if rng.chance(1, 3) { Some(b"desc".to_vec()) } else { None };
+                recs.push(Rec { acc, desc, seq, bare: false });
+            }
+            let width = *rng.pick(&[0usize, 5, 60]);
+            let crlf = rng.below(2) as u8;
+            let text = render(rng, &recs, width, crlf, 0, false, 0);
+            let mut b = match rng.below(5) {
+                0 => shape("KR", Some(b'P'), true),
+                1 => shape("K", None, true),
+                2 => shape("D", None, false),
+                3 => shape("", None, true),
+                _ => shape("KR", None, true),
+            };
+            let nonspecific = b.cleave.as_deref() == Some(&b""[..]);
+            b.mc = Some(rng.below(3) as u8);
+            b.semi = Some(!nonspecific && rng.chance(1, 4));
+            let lo = 2 + rng.below(4);
+            b.min_len = Some(lo);
+            b.max_len = Some(if nonspecific { lo + rng.below(2) } else { lo + 4 + rng.below(20) });
+            let mut o = Out::new();
+            o.raw("fastadigest").bytes(tag).b(generate).bytes(&text);
+            builder_tokens(&mut o, &b);
+            o.n(POOLS.len());
+            for p in POOLS {
+                o.n(*p);
+            }
+            emit(Case::new(o.finish())
+                .tag("fastadigest")
+                .tag_if(generate, "generate-decoys")
+                .tag_if(nrec % 2 == 1, "odd-record-count")
+                .nontrivial(nrec >= 2));
+        }
+    }
+}
+
 pub fn gen(rng: &mut Rng, tier: Tier, emit: &mut dyn FnMut(Case)) {
     gen_digest(rng, tier, emit);
     gen_fasta(rng, tier, emit);
+    gen_fastadigest(rng, tier, emit);
 }
 
 // -------------------------------------------------------------------------------------------- exec
@@ -574,6 +667,65 @@ pub fn exec(op: &str, t: &mut Toks) -> Option<String> {
             o.n(fasta.targets.len());
             for (acc, seq) in &fasta.targets {
                 o.s(acc).s(seq);
+            }
+            Some(o.finish())
+        }
+        "fastadigest" => {
+            let tag = t.string()?;
+            let generate = t.bool()?;
+            let text = t.string()?;
+            let mc = opt(t, |t| t.usize())?;
+            let min_len = opt(t, |t| t.usize())?;
+            let max_len = opt(t, |t| t.usize())?;
+            let cleave = opt(t, |t| t.string())?;
+            let restrict = opt(t, |t| t.usize())?;
+            let c_terminal = opt(t, |t| t.bool())?;
+            let semi = opt(t, |t| t.bool())?;
+            let pools = t.list(|t| t.usize())?;
+            if !t.done() || !text.is_ascii() || !tag.is_ascii() || pools.iter().any(|&p| p == 0 || p > 64) {
+                return None;
+            }
+            let builder = EnzymeBuilder {
+                missed_cleavages: match mc {
+                    Some(x) => Some(u8::try_from(x).ok()?),
+                    None => None,
+                },
+                min_len,
+                max_len,
+                cleave_at: cleave,
+                restrict: match restrict {
+                    Some(x) => Some(u8::try_from(x).ok().filter(|b| b.is_ascii())? as char),
+                    None => None,
+                },
+                c_terminal,
+                semi_enzymatic: semi,
+            };
+            let params: EnzymeParameters = builder.into();
+            let fasta = Fasta::parse(text, tag, generate);
+            let mut o = Out::new();
+            o.n(pools.len());
+            for &p in &pools {
+                let pool = rayon::ThreadPoolBuilder::new().num_threads(p).build().ok()?;
+                let digests = pool.install(|| fasta.digest(&params));
+                let mut items: Vec<String> = digests
+                    .iter()
+                    .map(|d| {
+                        let mut i = Out::new();
+                        i.s(&d.protein).s(&d.sequence).n(d.missed_cleavages).n(match d.position {
+                            Position::Nterm => 0,
+                            Position::Cterm => 1,
+                            Position::Full => 2,
+                            Position::Internal => 3,
+                        });
+                        i.b(d.semi_enzymatic).b(d.decoy);
+                        i.finish()
+                    })
+                    .collect();
+                items.sort();
+                o.n(items.len());
+                for it in &items {
+                    o.raw(it);
+                }
             }
             Some(o.finish())
         }
